@@ -10,6 +10,7 @@ REGISTRY = {
     "C01": ("engine", "check_C01"),
     "C14": ("engine", "check_C14"),
     "C20": ("paramcheck", "check_C20"),
+    "C18": ("netcdfio", "check_C18"),
     "C17": ("csvio", "check_C17"),
     "C09": ("heap", "check_C09"),
     "C19": ("registry", "check_C19"),
